@@ -2,7 +2,7 @@
 (* C40 — malformed-input grammar for every decoder that processes bytes received from a remote peer.
 
    For each decoder the classes of malformed frames are enumerated (the Cartesian structure is the model; the bytes are
-   produced by the executor from a valid encoding): truncation at every offset of the first bytes, zero / over-limit /
+   produced by the executor from a valid encoding): truncation at every offset of the first bytes, zero / tiny (0..5 bytes, minimal and non-minimal varint) / over-limit /
    2^32-1 length prefixes, over-long varints, wrong wire types, a length-delimited field claiming far more than is
    present, nested garbage, valid-then-garbage, all-zero / all-0xff / seeded random bytes.
    Expected: the decoder returns a value or an error, never panics, and never allocates more than Limit(decoder) plus
@@ -12,10 +12,10 @@ EXTENDS Naturals, Sequences, FiniteSets, TLC, Json, SequencesExt, IOUtils
 Decoder == {"hdr", "packetconn", "session", "floodsub-packet", "solicit-exchange", "signaling-request", "signaling-response",
             "signedmsg", "envelope", "peerid", "pubkey", "privkey", "pem", "pubmessage"}
 Streaming == {"hdr", "packetconn", "session", "solicit-exchange"}
-Class == {"trunc", "lenZero", "lenOver", "lenMax32", "varintOverlong", "wireType", "innerHuge", "nestedGarbage", "validThenGarbage",
+Class == {"trunc", "lenZero", "lenTiny", "lenOver", "lenMax32", "varintOverlong", "wireType", "innerHuge", "nestedGarbage", "validThenGarbage",
           "zeros", "ones", "random", "bitflip"}
 Variant == 0..11     \* offset / position / seed selector inside the class
-Applicable(d, c) == (c \in {"lenZero", "lenOver", "lenMax32"} => d \in Streaming)
+Applicable(d, c) == (c \in {"lenZero", "lenTiny", "lenOver", "lenMax32"} => d \in Streaming)
 Cases == {x \in [dec : Decoder, cls : Class, v : Variant] : Applicable(x.dec, x.cls)}
 \* allocation bound per message in bytes (configured maximum of the decoder + slack for bookkeeping)
 Limit(d) == CASE d = "hdr" -> 100000 [] d = "packetconn" -> 65536 [] d = "session" -> 65536 [] d = "solicit-exchange" -> 16384 [] OTHER -> 0
